@@ -313,6 +313,10 @@ func c19Run(s *Shard) {
 		{"function": "newCriterion", "params": refStrategy(M{"randomSeed": 6}, 2)},
 		{"function": "newCriterion", "params": withBounding(refStrategy(M{"randomSeed": 6, "newCriterionImportance": 1.0}, 0), 1)},
 		{"function": "newCriterion", "params": withBounding(refStrategy(M{"randomSeed": 6, "newCriterionImportance": 0.0}, 0), 3)},
+		// one bounding option without the other: no negative values, no range limit (absent / the documented -1 written out)
+		{"function": "inline", "params": M{"applyOnNotConsidered": true, "disallowNegativeValues": true}},
+		{"function": "inline", "params": M{"applyOnNotConsidered": false, "allowedValuesRangeScaling": -1.0, "disallowNegativeValues": true}},
+		{"function": "newCriterion", "params": withBounding(refStrategy(M{"randomSeed": 6}, 0), 2)},
 	}
 	prefixes := [][]M{nil}
 	for _, b := range biasAlphabet(0) {
